@@ -74,7 +74,7 @@ def parse_listing(crawler, out: bytes):
 ROOT_LINK = {"gopher": b"", "sgopher": b"", "gopherp": b"", "http": b"/", "https": b"/", "wap": b"/wap/", "gemini": b"/", "spartan": b"/"}
 
 
-def crawl(w, crawler, part, label, cap=20000, root_link=None):
+def crawl(w, crawler, part, label, cap=20000, root_link=None, reached=None):
     """BFS from the root menu. -> list of (class, detail, link)"""
     bad = []
     seen = set()
@@ -125,26 +125,54 @@ def crawl(w, crawler, part, label, cap=20000, root_link=None):
             if link in seen:
                 continue
             seen.add(link)
+            if reached is not None:
+                reached.add(e["target"][1])
             queue.append((link, e.get("kind"), raw))
     return bad, visited
 
 
-def _tree(name_subset, full):
-    return worlds.names_spec(name_subset, full=full)
+def _tree(name_subset, full, rootwap=None):
+    spec = worlds.names_spec(name_subset, full=full)
+    if rootwap:
+        # a real top-level directory at the path of the WAP prefix, crawled through WAP only (there the reading is
+        # unambiguous: the prefix comes off once, so <prefix><prefix> is the WAP view of that directory)
+        d = spec
+        parts = [x for x in rootwap.encode().split(b"/") if x]
+        for x in parts[:-1]:
+            d = d.setdefault(x, {})
+        inner = {b"intro.txt": b"intro\n", b"more": {b"deep.txt": b"deep\n"}}
+        sub = inner
+        for x in reversed(parts):
+            sub = {x: sub}
+        inner.update({parts[0]: {b"again.txt": b"again\n"}})
+        d[parts[-1]] = inner
+    return spec
 
 
 def _shard(shard, seed, tier):
     part = core.Partial()
     handlers, crawler, names = shard[:3]
     over = dict(shard[3]) if len(shard) > 3 else {}
+    rootwap = over.pop("_rootwap", None)
     allnames = list(names)
-    if crawler in URL_BASED:
+    if crawler in URL_BASED and not rootwap:
         allnames = allnames + worlds.URL_ONLY_NAMES
-    w = rig.World(_tree(allnames, handlers == "full"), handlers=handlers, cachetime=0, tag="c05", **over)
+    w = rig.World(_tree(allnames, handlers == "full", rootwap), handlers=handlers, cachetime=0, tag="c05", **over)
     try:
-        label = "%s|%s|%d names%s" % (handlers, crawler, len(allnames), "|" + ",".join("%s=%s" % kv for kv in sorted(over.items())) if over else "")
+        label = "%s|%s|%d names%s%s" % (handlers, crawler, len(allnames), "|" + ",".join("%s=%s" % kv for kv in sorted(over.items())) if over else "", "|rootwap=" + rootwap if rootwap else "")
         top = over.get("protocols_DOT_wap_DOT_WAPProtocol__waptop")
-        bad, visited = crawl(w, crawler, part, label, root_link=(top.encode() + b"/") if top else None)
+        parsers.WAP_PREFIX = top.rstrip("/").encode() if top else b"/wap"
+        reached = set() if rootwap else None
+        bad, visited = crawl(w, crawler, part, label, root_link=(top.encode() + b"/") if top else None, reached=reached)
+        if rootwap:
+            # a link that is answered with some OTHER menu is not served either: the same world crawled through
+            # Gopher is the reference for what can be reached (plain tree, plain names)
+            ref = set()
+            crawl(w, "gopher", core.Partial(), label + "|ref", reached=ref)
+            ref = {re.sub(rb"/+", b"/", x) for x in ref} - {b"/", b""}
+            reached = {re.sub(rb"/+", b"/", x) for x in reached} - {b"/", b""}  # (a prefix configured with a trailing slash yields /wap//x links)
+            if reached != ref:
+                bad.append(("unreached", "crawling via %s never reaches %r; reaches only there: %r" % (crawler, sorted(ref - reached)[:5], sorted(reached - ref)[:5]), b"<reach>"))
         part.sample({"crawl": label, "links_followed": visited}, limit=1)
         seen = set()
         for cls, det, raw in bad:
@@ -152,19 +180,30 @@ def _shard(shard, seed, tier):
             if key in seen:
                 continue
             seen.add(key)
-            part.violation(key + ("|" + repr(sorted(over.items())) if over else ""), det, {"handlers": handlers, "crawler": crawler, "names": allnames, "over": over})
+            part.violation(key + ("|" + repr(sorted(over.items())) if over else ""), det, {"handlers": handlers, "crawler": crawler, "names": allnames, "over": over, "rootwap": rootwap})
     finally:
+        parsers.WAP_PREFIX = b"/wap"
         w.destroy()
     return part
 
 
 def replay(case):
     part = core.Partial()
-    w = rig.World(_tree(case["names"], case["handlers"] == "full"), handlers=case["handlers"], cachetime=0, tag="c05r", **case.get("over", {}))
+    w = rig.World(_tree(case["names"], case["handlers"] == "full", case.get("rootwap")), handlers=case["handlers"], cachetime=0, tag="c05r", **case.get("over", {}))
     try:
         top = case.get("over", {}).get("protocols_DOT_wap_DOT_WAPProtocol__waptop")
-        bad, _ = crawl(w, case["crawler"], part, "replay", root_link=(top.encode() + b"/") if top else None)
+        parsers.WAP_PREFIX = top.rstrip("/").encode() if top else b"/wap"
+        reached = set() if case.get("rootwap") else None
+        bad, _ = crawl(w, case["crawler"], part, "replay", root_link=(top.encode() + b"/") if top else None, reached=reached)
+        if reached is not None:
+            ref = set()
+            crawl(w, "gopher", core.Partial(), "replay|ref", reached=ref)
+            ref = {re.sub(rb"/+", b"/", x) for x in ref} - {b"/", b""}
+            reached = {re.sub(rb"/+", b"/", x) for x in reached} - {b"/", b""}  # (a prefix configured with a trailing slash yields /wap//x links)
+            if reached != ref:
+                bad.append(("unreached", "crawling via %s never reaches %r; reaches only there: %r" % (case["crawler"], sorted(ref - reached)[:5], sorted(reached - ref)[:5]), b"<reach>"))
     finally:
+        parsers.WAP_PREFIX = b"/wap"
         w.destroy()
     return (bad[0][0], bad[0][1]) if bad else None
 
@@ -195,6 +234,10 @@ def run(ck):
             shards.append((handlers, crawler, [b"wap", b"m"]))
     for top in ("/wap/", "/m/wap"):
         shards.append(("default", "wap", [b"wap", b"m"], (("protocols_DOT_wap_DOT_WAPProtocol__waptop", top),)))
+    for handlers in ("default", "full"):
+        shards.append((handlers, "wap", [b"wap", b"m"], (("_rootwap", "/wap"),)))
+    for top in ("/wap/", "/m/wap"):
+        shards.append(("default", "wap", [b"wap", b"m"], (("protocols_DOT_wap_DOT_WAPProtocol__waptop", top), ("_rootwap", top.rstrip("/")))))
     p = ck.pmap(_shard, shards)
     if p.extra.get("capped"):
         ck.caps.append("crawl cap hit: %r" % p.extra["capped"])
